@@ -31,6 +31,7 @@ func (g *Gen) doCall(st *State, c *ssa.Call) *Val {
 		}
 		ms := g.P.invokeModSet(cc)
 		g.havocked = append(g.havocked, fmt.Sprintf("invoke %s (no interface contract)", key))
+		g.frameCheckOpaqueCall(st, c, ms, key)
 		return g.havocCall(st, c, ms, append([]*Val{recv}, args...))
 	}
 	if fn, ok := cc.Value.(*ssa.Function); ok {
@@ -40,10 +41,12 @@ func (g *Gen) doCall(st *State, c *ssa.Call) *Val {
 		}
 		ms := g.P.modSetOf(fn)
 		g.havocked = append(g.havocked, fmt.Sprintf("call %s (no contract)", key))
+		g.frameCheckOpaqueCall(st, c, ms, key)
 		return g.havocCall(st, c, ms, args)
 	}
 	// closure / function value
 	g.havocked = append(g.havocked, "dynamic call "+text)
+	g.frameCheckOpaqueCall(st, c, &ModSet{All: true}, "dynamic "+text)
 	return g.havocCall(st, c, &ModSet{All: true}, args)
 }
 
@@ -110,6 +113,7 @@ func (g *Gen) doBuiltin(st *State, c *ssa.Call, name string) *Val {
 		m := g.val(st, cc.Args[0])
 		k := mapKeyTerm(g, g.val(st, cc.Args[1]))
 		has, _, _ := g.mapArrays(st, cc.Args[0].Type())
+		g.frameCheckMap(st, m.S, c.Pos(), "delete")
 		old := g.heapSym(st.heap, has)
 		nw := g.fresh(has, "(Array Int (Array Int Bool))")
 		g.emit("(assert " + eq(nw, sto(old, m.S, sto(sel(old, m.S), k, "false"))) + ")")
@@ -155,9 +159,11 @@ func (g *Gen) doAppend(st *State, c *ssa.Call, s, x *Val) *Val {
 	newlen := add(s.Len, n)
 	inplace := g.fresh("append_inplace", "Bool")
 	g.emit("(assert " + eq(inplace, "(<= "+newlen+" "+s.Cap+")") + ")")
+	g.frameCheckAppend(st, s, n, c.Pos(), g.textAt(c.Pos()))
 	if g.onAppend != nil {
 		g.onAppend(g, st, s, n, c.Pos(), g.textAt(c.Pos()))
 	}
+	g.assume(and(st.reach, inplace, not(eq(n, "0"))), "(<= 0 "+s.Arr+")") // see store: constants are never written
 	fa := g.newArr(st, "append_arr")
 	fcap := g.fresh("append_cap", "Int")
 	g.emit("(assert (and (>= " + fcap + " " + newlen + ") (<= " + fcap + " 4611686018427387904)))")
@@ -299,12 +305,14 @@ func (g *Gen) doCopy(st *State, c *ssa.Call, d, s *Val) *Val {
 	n := ite("(<= "+d.Len+" "+s.Len+")", d.Len, s.Len)
 	nn := g.fresh("copy_n", "Int")
 	g.emit("(assert " + eq(nn, n) + ")")
+	g.frameCheckCopy(st, d, nn, c.Pos(), g.textAt(c.Pos()))
 	if g.onCopy != nil {
 		g.onCopy(g, st, d, nn, c.Pos(), g.textAt(c.Pos()))
 	}
 	if kindOf(et) == KStruct || kindOf(et) == KArray {
 		unsup("copy of aggregate elements")
 	}
+	g.assume(and(st.reach, not(eq(nn, "0"))), "(<= 0 "+d.Arr+")")
 	sfx, kinds := leafComps(et)
 	set := elemTypeOf(s.T)
 	for ci, sf := range sfx {
@@ -346,13 +354,19 @@ func (g *Gen) advanceBrk(st *State) {
 func (g *Gen) applyModSet(st *State, ms *ModSet) {
 	if ms.All {
 		ob, oa := g.brk(st), g.abrk(st)
+		om := g.memSym(st, types.Typ[types.Uint8], "", KInt)
 		g.nbase++
 		st.heap = &Heap{m: map[string]string{}, base: &heapBase{id: g.nbase}}
 		nb, na := g.brk(st), g.abrk(st)
 		g.emit("(assert (and (>= " + nb + " " + ob + ") (>= " + na + " " + oa + ")))")
+		g.constFrame(om, g.memSym(st, types.Typ[types.Uint8], "", KInt))
 		return
 	}
+	var fresh []string
 	for _, name := range sortedKeys(ms.Names) {
+		if name == "brk" || name == "abrk" {
+			continue // advanceBrk below keeps the allocation counters monotone
+		}
 		srt, ok := g.heapSort[name]
 		if !ok {
 			srt = g.P.sortOfHeapName(name)
@@ -368,9 +382,28 @@ func (g *Gen) applyModSet(st *State, ms *ModSet) {
 			st.heap.m[name] = s
 			continue
 		}
+		if name == "M|uint8" {
+			om := g.heapSym(st.heap, name)
+			nm := g.fresh(name, srt)
+			st.heap.m[name] = nm
+			g.constFrame(om, nm)
+			continue
+		}
 		st.heap.m[name] = g.fresh(name, srt)
+		fresh = append(fresh, name)
 	}
 	g.advanceBrk(st)
+	for _, name := range fresh {
+		g.rangeAxiom(st.heap, name, st.heap.m[name])
+	}
+}
+
+// constFrame: string-constant memory (negative array ids) is never changed by anything.
+func (g *Gen) constFrame(oldM, newM string) {
+	if oldM == newM {
+		return
+	}
+	g.emit(fmt.Sprintf("(assert (forall ((a Int)) (! (=> (< a 0) (= (select %s a) (select %s a))) :pattern ((select %s a)))))", newM, oldM, newM))
 }
 
 func (g *Gen) callWithSpec(st *State, c *ssa.Call, sp *FuncSpec, fn *ssa.Function, args []*Val, text string) *Val {
@@ -401,8 +434,10 @@ func (g *Gen) callWithSpec(st *State, c *ssa.Call, sp *FuncSpec, fn *ssa.Functio
 	if sp.HasMod {
 		g.applyDeclaredMods(st, env, sp)
 	} else if fn != nil {
+		g.frameCheckOpaqueCall(st, c, g.P.modSetOf(fn), calleeName)
 		g.applyModSet(st, g.P.modSetOf(fn))
 	} else {
+		g.frameCheckOpaqueCall(st, c, g.P.invokeModSet(c.Common()), calleeName)
 		g.applyModSet(st, g.P.invokeModSet(c.Common()))
 	}
 	// ghost updates
@@ -416,6 +451,9 @@ func (g *Gen) callWithSpec(st *State, c *ssa.Call, sp *FuncSpec, fn *ssa.Functio
 	g.bindResults(post, sig.Results(), res, fn)
 	for _, cl := range sp.Ensures {
 		g.assume(st.reach, g.evalBool(post, cl.E))
+	}
+	if sp.HasMod {
+		g.frameCheckCall(st, pre, c, sp, env, calleeName)
 	}
 	return res
 }
@@ -440,8 +478,20 @@ func (g *Gen) bindResults(env *Env, results *types.Tuple, res *Val, fn *ssa.Func
 
 // applyDeclaredMods havocs exactly the declared locations.
 func (g *Gen) applyDeclaredMods(st *State, env *Env, sp *FuncSpec) {
+	// fields, objects and ghosts are located in the pre-state; contents(s) denotes the array held by s
+	// AFTER the call (fresh, or the old one when grown in place), so it is applied last, in the
+	// partially havocked state.
 	for _, item := range sp.Modifies {
-		g.applyModItem(st, env, item, sp)
+		if !strings.HasPrefix(item, "contents(") {
+			g.applyModItem(st, env, item, sp)
+		}
+	}
+	for _, item := range sp.Modifies {
+		if strings.HasPrefix(item, "contents(") {
+			e2 := *env
+			e2.cur = st
+			g.applyModItem(st, &e2, item, sp)
+		}
 	}
 	g.advanceBrk(st)
 }
